@@ -9,7 +9,7 @@ from ..astutil import (
     call_name, calls_in, dotted, guard_atoms, lexical_guards, name_stores, raises_of, raised_name,
     returns_of, unparse, walk_local,
 )
-from ..report import Registry, sub
+from ..report import Registry, chain, sub
 from ._helpers_rules_a import Unsupported, self_attr
 
 R = Registry(
@@ -22,7 +22,11 @@ R = Registry(
         "is enforced; digests/counters use no hash()/id()/random/time and md5 is taken of the name only; the "
         "per-class truncation counter is embedded and advanced on every path and results are memoised per "
         "(class, name); every documented naming-convention token dispatches to an existing ConventionDict "
-        "method and conv() names bypass the convention through the explicit isinstance test."
+        "method and conv() names bypass the convention through the explicit isinstance test; "
+        "SQLCompiler.visit_bindparam raises for two distinct unrelated bind elements with the same rendered name "
+        "whenever either is unique, in either compilation order, before registering the name (R5); "
+        "IdentifierPreparer.format_constraint truncates every Index/Constraint class against the limit documented "
+        "for that kind of DDL object (R6)."
     ),
     not_decided="uniqueness of 4-hex-digit md5 suffixes across distinct long names (probabilistic); collisions "
                 "between a truncated name and an unrelated user-chosen name.",
@@ -433,6 +437,341 @@ def r4(ctx):
               "conv(convention % ConventionDict(..))", f.loc)
 
 
+# ------------------------------------------------------------------------------------------ R5
+class _NeedAtom(Exception):
+    def __init__(self, atom):
+        self.atom = atom
+
+
+class _ClashEval:
+    """Three-valued walk of the name-clash region of visit_bindparam for the scenario "another, unrelated bind
+    element is already registered under this rendered name".  `roles` maps the two local names to 'existing'/'new';
+    `unique` gives the scenario's value of <role>.unique.  Attributes other than `unique` are free (independent of
+    the scenario): every assignment of them is explored."""
+
+    def __init__(self, ctx, fn, roles, unique, name_var):
+        self.ctx, self.fn, self.roles, self.unique, self.name_var = ctx, fn, roles, unique, name_var
+        self.free = {}
+
+    # -- expressions
+    def _role(self, n):
+        if isinstance(n, ast.Subscript) and dotted(n.value) == "self.binds" and isinstance(n.slice, ast.Name) \
+                and n.slice.id == self.name_var:
+            return "existing"
+        return self.roles.get(n.id) if isinstance(n, ast.Name) else None
+
+    def ev(self, t):
+        if isinstance(t, ast.BoolOp):
+            if isinstance(t.op, ast.And):
+                for v in t.values:
+                    if not self.ev(v):
+                        return False
+                return True
+            for v in t.values:
+                if self.ev(v):
+                    return True
+            return False
+        if isinstance(t, ast.UnaryOp) and isinstance(t.op, ast.Not):
+            return not self.ev(t.operand)
+        if isinstance(t, ast.Constant):
+            return bool(t.value)
+        if isinstance(t, ast.Compare) and len(t.ops) == 1:
+            l, r_, op = t.left, t.comparators[0], t.ops[0]
+            if self._role(l) and self._role(r_) and self._role(l) != self._role(r_):
+                if isinstance(op, (ast.IsNot, ast.NotEq)):
+                    return True
+                if isinstance(op, (ast.Is, ast.Eq)):
+                    return False
+            if isinstance(op, (ast.In, ast.NotIn)) and isinstance(l, ast.Name) and l.id == self.name_var \
+                    and dotted(r_) == "self.binds":
+                return isinstance(op, ast.In)
+        if isinstance(t, ast.Attribute) and self._role(t.value):
+            if t.attr == "unique":
+                return self.unique[self._role(t.value)]
+            return self._free(t)
+        if isinstance(t, ast.Call) and isinstance(t.func, ast.Attribute) and len(t.args) == 1 and not t.keywords:
+            a, b = t.func.value, t.args[0]
+            if isinstance(a, ast.Attribute) and isinstance(b, ast.Attribute) and self._role(a.value) and self._role(b.value) \
+                    and self._role(a.value) != self._role(b.value) and a.attr == b.attr:
+                # <x>.<set attr>.intersection(<y>.<same attr>): the two elements are unrelated -> no common member
+                if t.func.attr in ("intersection", "__and__"):
+                    return False
+                if t.func.attr == "isdisjoint":
+                    return True
+        if isinstance(t, ast.BinOp) and isinstance(t.op, ast.BitAnd) and isinstance(t.left, ast.Attribute) \
+                and isinstance(t.right, ast.Attribute) and self._role(t.left.value) and self._role(t.right.value) \
+                and self._role(t.left.value) != self._role(t.right.value) and t.left.attr == t.right.attr:
+            return False
+        if isinstance(t, ast.Call):
+            pred = self._follow_predicate(t)
+            if pred is not None:
+                return pred
+        if isinstance(t, ast.Call) and any(self._role(n) for n in ast.walk(t)):
+            self.ctx.error(f"{self.fn.key}: name-clash test `{unparse(t)}` is not understood")
+        return self._free(t)
+
+    def _free(self, t):
+        k = unparse(t)
+        for r_name, role in self.roles.items():
+            k = re.sub(rf"\b{re.escape(r_name)}\b", f"<{role}>", k)
+        if k not in self.free:
+            raise _NeedAtom(k)
+        return self.free[k]
+
+    def _callee(self, call):
+        nm = dotted(call.func) or ""
+        if nm.startswith("self.") and nm.count(".") == 1 and self.fn.cls is not None:
+            return self.ctx.index.resolve_method(self.fn.cls, nm.split(".")[1])
+        return None
+
+    def _sub_eval(self, call, target):
+        params = [p_ for p_ in target.params if p_ != "self"]
+        bound = dict(zip(params, call.args))
+        bound.update({k.arg: k.value for k in call.keywords if k.arg})
+        roles = {p_: self._role(a) for p_, a in bound.items() if self._role(a)}
+        nv = next((p_ for p_, a in bound.items() if isinstance(a, ast.Name) and a.id == self.name_var), self.name_var)
+        if set(roles.values()) != {"existing", "new"}:
+            return None
+        e = _ClashEval(self.ctx, target, roles, self.unique, nv)
+        e.free = self.free
+        self.ctx.functions_analysed.add(target.key)
+        return e
+
+    def _follow_predicate(self, call):
+        target = self._callee(call)
+        if target is None:
+            return None
+        e = self._sub_eval(call, target)
+        if e is None:
+            return None
+        body = [st for st in target.node.body if not (isinstance(st, ast.Expr) and isinstance(st.value, ast.Constant))]
+        if len(body) == 1 and isinstance(body[0], ast.Return) and body[0].value is not None:
+            return e.ev(body[0].value)
+        self.ctx.error(f"{target.key}: predicate helper of the name-clash guard is not a single `return <test>`")
+
+    # -- statements: 'raise' | 'fall'
+    def run(self, body, trace):
+        for st in body:
+            if isinstance(st, ast.Raise):
+                trace.append(f"raise {raised_name(st) or ''}".strip())
+                return "raise"
+            if isinstance(st, ast.Return):
+                trace.append("return")
+                return "return"
+            if isinstance(st, ast.If):
+                v = self.ev(st.test)
+                trace.append(f"`{unparse(st.test)[:70]}` is {v}")
+                out = self.run(st.body if v else st.orelse, trace)
+                if out != "fall":
+                    return out
+            elif isinstance(st, ast.Expr) and isinstance(st.value, ast.Call):
+                target = self._callee(st.value)
+                e = self._sub_eval(st.value, target) if target is not None else None
+                if e is not None:
+                    trace.append(f"-> {target.qualname}()")
+                    if e.run(target.node.body, trace) == "raise":
+                        return "raise"
+        return "fall"
+
+
+def _explore(make_eval, body):
+    """run the region under every assignment of the free atoms; -> list of (assignment, trace) that do not raise."""
+    bad, work = [], [{}]
+    while work:
+        assign = work.pop()
+        e = make_eval()
+        e.free = dict(assign)
+        trace = []
+        try:
+            out = e.run(body, trace)
+        except _NeedAtom as na:
+            work.append({**assign, na.atom: True})
+            work.append({**assign, na.atom: False})
+            if len(work) > 256:
+                raise Unsupported("name-clash region: too many independent conditions")
+            continue
+        if out != "raise":
+            bad.append((assign, trace))
+    return bad
+
+
+@R.rule("C21-R5", floor=4, template="T-BOOL (scenario truth table)",
+        desc="SQLCompiler.visit_bindparam: when a distinct, unrelated bind element is already registered under the "
+             "rendered name and either of the two is `unique` (anonymous/generated), every path of the clash region "
+             "raises, whichever of the two was compiled first; the registration is dominated by that check")
+def r5(ctx):
+    f = ctx.func(f"{COMP}::SQLCompiler.visit_bindparam")
+    p_bind = f.params[1]
+    names = [n for n in walk_local(f.node) if isinstance(n, ast.Assign) and isinstance(n.value, ast.Call)
+             and dotted(n.value.func) == "self._truncate_bindparam" and isinstance(n.targets[0], ast.Name)]
+    ctx.require(len(names) == 1, f"{f.key}: expected one `<name> = self._truncate_bindparam(...)`")
+    nvar = names[0].targets[0].id
+
+    def is_binds_sub(t, idx_name):
+        return isinstance(t, ast.Subscript) and dotted(t.value) == "self.binds" and isinstance(t.slice, ast.Name) \
+            and t.slice.id == idx_name
+    stores = [n for n in walk_local(f.node) if isinstance(n, ast.Assign) and any(is_binds_sub(t, nvar) for t in n.targets)
+              and isinstance(n.value, ast.Name) and n.value.id == p_bind]
+    ctx.require(len(stores) == 1, f"{f.key}: expected one registration `self.binds[{nvar}] = {p_bind}`")
+    def is_lookup(t):
+        return isinstance(t, ast.Compare) and len(t.ops) == 1 and isinstance(t.ops[0], ast.In) and isinstance(t.left, ast.Name) \
+            and t.left.id == nvar and dotted(t.comparators[0]) == "self.binds"
+    lookups = [n for n in walk_local(f.node) if isinstance(n, ast.If) and any(is_lookup(t) for t in ast.walk(n.test))]
+    ctx.require(len(lookups) == 1, f"{f.key}: expected one `if {nvar} in self.binds:` region")
+    region = lookups[0]
+    ex = [n for n in walk_local(region) if isinstance(n, ast.Assign) and is_binds_sub(n.value, nvar)
+          and isinstance(n.targets[0], ast.Name)]
+    ctx.require(len(ex) <= 1, f"{f.key}: the registered element is bound to more than one local")
+    evar = ex[0].targets[0].id if ex else f"self.binds[{nvar}]"
+    roles = {evar: "existing", p_bind: "new"}
+    scenarios = [("new-unique", {"existing": False, "new": True},
+                  "the element being compiled is unique (anonymous / generated name) and the registered one is an "
+                  "explicitly named bindparam()"),
+                 ("existing-unique", {"existing": True, "new": False},
+                  "the registered element is unique (anonymous / generated name) and the one being compiled is an "
+                  "explicitly named bindparam()"),
+                 ("both-unique", {"existing": True, "new": True}, "both elements are unique")]
+    for tag, uniq, words in scenarios:
+        bad = _explore(lambda: _ClashEval(ctx, f, roles, uniq, nvar), [region])
+        key = f"{f.key}:name-clash:{tag}"
+        if bad:
+            assign, trace = bad[0]
+            extra = ", ".join(f"{k}={v}" for k, v in assign.items())
+            ctx.violation(key,
+                          f"two distinct, unrelated bind elements render to the same parameter name, {words}"
+                          f"{' (with ' + extra + ')' if extra else ''}: the clash region does not raise, "
+                          f"`{unparse(stores[0])[:60]}` replaces the registered element and both expressions share one "
+                          f"parameter. The guard must hold for either order of compilation ({evar}.unique or {p_bind}.unique)",
+                          f.loc, trace)
+        else:
+            ctx.ok(key, "CompileError on every path")
+    g = ctx.cfg(f)
+    w = g.always_preceded(g.nodes_for(stores[0])[0], [i for i in g.nodes_for(region)])
+    ctx.check(w is None, f"{f.key}:name-clash:dominates-registration",
+              f"`{unparse(stores[0])[:60]}` can be reached without passing the `{nvar} in self.binds` clash check", 
+              "registration dominated by the clash check", f.loc, w)
+
+
+# ------------------------------------------------------------------------------------------ R6
+# Documented meaning of the Dialect attributes (engine.interfaces.Dialect): max_index_name_length is "the max length
+# of index names", max_constraint_name_length "the max length of constraint names"; both fall back to
+# max_identifier_length.  So the limit is decided by the class of DDL object the name is emitted for.
+DDL_NAME_LIMIT = {"sql/schema.py::Index": "max_index_name_length", "sql/schema.py::Constraint": "max_constraint_name_length"}
+
+
+def _limit_helpers(ctx, prep):
+    """IdentifierPreparer method name -> the dialect.max_*_name_length attribute its truncation limit starts with."""
+    out = {}
+    for name, m in prep.methods.items():
+        calls = [c for c in calls_in(m.node) if dotted(c.func) == "self._truncate_and_render_maxlen_name"]
+        if not calls:
+            continue
+        binds = {n: val for n, val, _st in name_stores(m.node) if val is not None}
+        attrs = set()
+        for c in calls:
+            arg = c.args[1] if len(c.args) > 1 else next((k.value for k in c.keywords if k.arg == "max_"), None)
+            ctx.require(arg is not None, f"{m.key}: no limit passed to _truncate_and_render_maxlen_name")
+            val = binds.get(arg.id, arg) if isinstance(arg, ast.Name) else arg
+            for n in ast.walk(val):
+                d = dotted(n) if isinstance(n, ast.Attribute) else None
+                if d and d.startswith("self.dialect.max_") and d != "self.dialect.max_identifier_length":
+                    attrs.add(d.rsplit(".", 1)[1])
+        ctx.require(len(attrs) == 1, f"{m.key}: the truncation limit does not start from exactly one dialect.max_*_name_length ({sorted(attrs)})")
+        out[name] = attrs.pop()
+    return out
+
+
+def _dispatch_value(ctx, test, p_c, k, vn, mod):
+    """value of a test for a DDL object of class k (visit name vn); None if the test does not discriminate by class."""
+    if isinstance(test, ast.BoolOp):
+        vals = [_dispatch_value(ctx, v, p_c, k, vn, mod) for v in test.values]
+        known = [v for v in vals if v is not None]
+        if isinstance(test.op, ast.And):
+            return False if any(v is False for v in known) else (True if len(known) == len(vals) else None)
+        return True if any(v is True for v in known) else (False if len(known) == len(vals) else None)
+    if isinstance(test, ast.UnaryOp) and isinstance(test.op, ast.Not):
+        v = _dispatch_value(ctx, test.operand, p_c, k, vn, mod)
+        return None if v is None else not v
+    if isinstance(test, ast.Compare) and len(test.ops) == 1:
+        sides = [test.left, test.comparators[0]]
+        vis = [s_ for s_ in sides if dotted(s_) in (f"{p_c}.__visit_name__", f"type({p_c}).__visit_name__")]
+        if vis:
+            other = sides[1] if vis[0] is sides[0] else sides[0]
+            op = test.ops[0]
+            if isinstance(other, ast.Constant) and isinstance(op, (ast.Eq, ast.NotEq)):
+                return (vn == other.value) == isinstance(op, ast.Eq)
+            if isinstance(other, (ast.Tuple, ast.List, ast.Set)) and all(isinstance(e, ast.Constant) for e in other.elts) \
+                    and isinstance(op, (ast.In, ast.NotIn)) and vis[0] is sides[0]:
+                return (vn in {e.value for e in other.elts}) == isinstance(op, ast.In)
+            ctx.error(f"format_constraint: dispatch test `{unparse(test)}` is not understood")
+    if isinstance(test, ast.Call) and dotted(test.func) == "isinstance" and len(test.args) == 2 \
+            and isinstance(test.args[0], ast.Name) and test.args[0].id == p_c:
+        classes = test.args[1].elts if isinstance(test.args[1], ast.Tuple) else [test.args[1]]
+        res = False
+        for c in classes:
+            target = ctx.index.resolve(mod, dotted(c) or "")
+            ctx.require(hasattr(target, "methods") and hasattr(target, "bases"),
+                        f"format_constraint: class `{unparse(c)}` in `{unparse(test)}` cannot be resolved")
+            res = res or ctx.index.is_subclass(k, target)
+        return res
+    if any(dotted(n) in (f"{p_c}.__visit_name__", f"{p_c}.__class__") for n in ast.walk(test) if isinstance(n, ast.Attribute)) \
+            or any(isinstance(n, ast.Call) and dotted(n.func) in ("type", "isinstance")
+                   and any(isinstance(a, ast.Name) and a.id == p_c for a in n.args) for n in ast.walk(test)):
+        ctx.error(f"format_constraint: dispatch test `{unparse(test)}` is not understood")
+    return None
+
+
+@R.rule("C21-R6", floor=7, template="T-TABLE / T-EXHAUST",
+        desc="IdentifierPreparer.format_constraint truncates the name of every DDL object class (Index, Constraint and "
+             "all their subclasses) against the limit documented for that kind of object: max_index_name_length for "
+             "Index only, max_constraint_name_length for every Constraint")
+def r6(ctx):
+    ix = ctx.index
+    prep = ix.cls(PREP)
+    fc = ctx.func(f"{PREP}.format_constraint")
+    p_c = fc.params[1]
+    helpers = _limit_helpers(ctx, prep)
+    ctx.require(set(helpers.values()) >= set(DDL_NAME_LIMIT.values()),
+                f"IdentifierPreparer no longer has truncation helpers for {sorted(DDL_NAME_LIMIT.values())} (found {helpers})")
+    g = ctx.cfg(fc)
+    exits = []  # (return stmt, limit attr)
+    for r_ in returns_of(fc.node):
+        v = r_.value
+        if isinstance(v, ast.Call) and (dotted(v.func) or "").startswith("self.") and (dotted(v.func) or "").split(".")[-1] in helpers:
+            exits.append((r_, helpers[dotted(v.func).split(".")[-1]]))
+    ctx.require(exits, f"{fc.key}: no return through a truncation helper")
+    base_index = ix.cls("sql/schema.py::Index")
+    base_const = ix.cls("sql/schema.py::Constraint")
+    family = [k for k in ix.all_classes() if ix.is_subclass(k, base_index) or ix.is_subclass(k, base_const)]
+    for k in sorted(family, key=lambda c: c.key):
+        owner, nodes = ix.class_attr_nodes(k, "__visit_name__")
+        ctx.require(owner is not None and len(nodes) == 1 and isinstance(nodes[0], ast.Constant),
+                    f"{k.key}: __visit_name__ is not a single string constant")
+        vn = nodes[0].value
+        expected = DDL_NAME_LIMIT["sql/schema.py::Index"] if ix.is_subclass(k, base_index) else DDL_NAME_LIMIT["sql/schema.py::Constraint"]
+        chosen = []
+        for r_, attr in exits:
+            node = g.nodes_for(r_)[0]
+            ok = True
+            for test, pol in g.edge_guards(node):
+                v = _dispatch_value(ctx, test, p_c, k, vn, fc.module)
+                if v is not None and v != pol:
+                    ok = False
+            if ok:
+                chosen.append((r_, attr))
+        key = f"{fc.key}:limit-for:{k.name}"
+        if len(chosen) != 1:
+            ctx.violation(key, f"a {k.name} (visit name '{vn}') selects {len(chosen)} truncating return(s) of format_constraint, "
+                               f"expected exactly one", fc.loc)
+            continue
+        r_, attr = chosen[0]
+        ctx.check(attr == expected, key,
+                  f"the name of a {k.name} (visit name '{vn}') is truncated by `{unparse(r_.value.func)}()` against "
+                  f"dialect.{attr}, but {'an index' if expected.startswith('max_index') else 'a constraint'} name is limited by "
+                  f"dialect.{expected}: with {expected} < {attr} the rendered name exceeds the dialect's limit",
+                  f"'{vn}' -> dialect.{attr}", fc.loc)
+
+
 # ------------------------------------------------------------------------------------------ self test
 R.mutant("r1-maxlen-slice-too-long", COMP,
          sub('name = name[0 : max_ - 8] + "_" + util.md5_hex(name)[-4:]', 'name = name[0 : max_ - 4] + "_" + util.md5_hex(name)[-4:]'), "C21-R1")
@@ -466,3 +805,42 @@ R.mutant("benign-shorter-prefix", COMP,
          sub('name = name[0 : max_ - 8] + "_" + util.md5_hex(name)[-4:]', 'name = name[0 : max_ - 9] + "_" + util.md5_hex(name)[-4:]'), None)
 R.mutant("benign-new-token-method", NAMING,
          sub("    def _key_column_X_label(self, idx):", "    def _key_schema_name(self):\n        return self.table.schema\n\n    def _key_column_X_label(self, idx):"), None)
+
+# ---- seeds / strengthen round (str-h) ----------------------------------------------------------
+_UNIQ = "                    (existing.unique or bindparam.unique)\n"
+# seed C21/1: the clash guard only looks at the already-registered parameter
+R.mutant("r5-seed1-guard-ignores-new-unique", COMP, sub(_UNIQ, "                    existing.unique\n"), "C21-R5")
+R.mutant("r5-guard-ignores-existing-unique", COMP, sub(_UNIQ, "                    bindparam.unique\n"), "C21-R5")
+R.mutant("r5-guard-needs-both-unique", COMP, sub(_UNIQ, "                    (existing.unique and bindparam.unique)\n"), "C21-R5")
+R.mutant("r5-conflict-only-warns", COMP,
+         sub("                    raise exc.CompileError(\n                        \"Bind parameter '%s' conflicts with \"\n"
+             "                        \"unique bind parameter of the same name\" % name\n                    )\n",
+             "                    util.warn(\n                        \"Bind parameter '%s' conflicts with \"\n"
+             "                        \"unique bind parameter of the same name\" % name\n                    )\n"), "C21-R5")
+R.mutant("r5-clash-check-skipped-for-postcompile", COMP,
+         sub("        if name in self.binds:\n            existing = self.binds[name]\n",
+             "        if name in self.binds and not post_compile:\n            existing = self.binds[name]\n"), "C21-R5")
+R.mutant("benign-guard-operands-swapped", COMP, sub(_UNIQ, "                    (bindparam.unique or existing.unique)\n"), None)
+R.mutant("benign-guard-through-predicate-helper", COMP,
+         chain(sub(_UNIQ, "                    self._either_unique(existing, bindparam)\n"),
+               sub("    def render_bind_cast(self, type_, dbapi_type, sqltext):\n",
+                   "    def _either_unique(self, registered, incoming):\n        return incoming.unique or registered.unique\n\n"
+                   "    def render_bind_cast(self, type_, dbapi_type, sqltext):\n")), None)
+R.mutant("benign-identity-test-merged-into-lookup", COMP,
+         sub("        if name in self.binds:\n            existing = self.binds[name]\n            if existing is not bindparam:\n",
+             "        if name in self.binds and self.binds[name] is not bindparam:\n            existing = self.binds[name]\n            if True:\n"), None)
+# seed C21/2: UNIQUE constraint names truncated against the index-name limit
+_DISPATCH = '        if constraint.__visit_name__ == "index":\n'
+R.mutant("r6-seed2-unique-constraint-uses-index-limit", COMP,
+         sub(_DISPATCH, '        if constraint.__visit_name__ in ("index", "unique_constraint"):\n'), "C21-R6")
+R.mutant("r6-dispatch-inverted", COMP, sub(_DISPATCH, '        if constraint.__visit_name__ != "index":\n'), "C21-R6")
+R.mutant("r6-primary-key-uses-index-limit", COMP,
+         sub(_DISPATCH, '        if isinstance(constraint, (schema.Index, schema.PrimaryKeyConstraint)):\n'), "C21-R6")
+R.mutant("benign-dispatch-by-isinstance", COMP, sub(_DISPATCH, '        if isinstance(constraint, schema.Index):\n'), None)
+R.mutant("benign-dispatch-constraint-arm-first", COMP,
+         sub('        if constraint.__visit_name__ == "index":\n            return self.truncate_and_render_index_name(\n'
+             '                name, _alembic_quote=_alembic_quote\n            )\n        else:\n'
+             '            return self.truncate_and_render_constraint_name(\n                name, _alembic_quote=_alembic_quote\n            )\n',
+             '        if constraint.__visit_name__ != "index":\n            return self.truncate_and_render_constraint_name(\n'
+             '                name, _alembic_quote=_alembic_quote\n            )\n'
+             '        return self.truncate_and_render_index_name(\n            name, _alembic_quote=_alembic_quote\n        )\n'), None)
